@@ -42,6 +42,10 @@ pub enum Mutation {
     /// insert `kib` KiB of filler without any record separator at byte `at`: one long token, a run of numbers,
     /// of matrix-like lines, of blanks, of text lines (kind 0..=5) - inputs far larger than any internal buffer
     Filler(usize, u16, u8),
+    /// the `which`-th numeric token of the first line at or after `line` that has one is replaced by a decimal with
+    /// `int` integer digits and `frac` digits after the point, of which only the last `sig` are non-zero
+    /// (0.000...0125): legal numbers of unusual lengths
+    Decimal { line: usize, which: usize, int: u8, frac: u8, sig: u8 },
     /// replace everything by arbitrary bytes
     Arbitrary(Vec<u8>),
     Empty,
@@ -119,6 +123,56 @@ fn apply(mut b: Vec<u8>, m: &Mutation) -> Vec<u8> {
         }
         Mutation::Arbitrary(v) => v.clone(),
         Mutation::Empty => Vec::new(),
+        Mutation::Decimal { line, which, int, frac, sig } => {
+            let mut ls = lines_of(&b);
+            if ls.is_empty() {
+                return b;
+            }
+            let is_num = |t: &str| !t.is_empty() && t.bytes().all(|c| c.is_ascii_digit() || c == b'.') && t.bytes().any(|c| c.is_ascii_digit());
+            let start = line % ls.len();
+            for off in 0..ls.len() {
+                let i = (start + off) % ls.len();
+                let text = String::from_utf8_lossy(&ls[i]).to_string();
+                // tokens with their byte ranges (separated by blanks, tabs, brackets)
+                let mut toks: Vec<(usize, usize)> = Vec::new();
+                let mut at = None;
+                for (p, ch) in text.char_indices() {
+                    let sep = ch == ' ' || ch == '\t' || ch == '[' || ch == ']' || ch == '\n' || ch == '\r';
+                    match (at, sep) {
+                        (None, false) => at = Some(p),
+                        (Some(a), true) => {
+                            toks.push((a, p));
+                            at = None;
+                        }
+                        _ => {}
+                    }
+                }
+                if let Some(a) = at {
+                    toks.push((a, text.len()));
+                }
+                let nums: Vec<(usize, usize)> = toks.into_iter().filter(|&(a, e)| is_num(&text[a..e])).collect();
+                if nums.is_empty() {
+                    continue;
+                }
+                let (a, e) = nums[which % nums.len()];
+                let frac = *frac as usize;
+                let sig = (*sig as usize).clamp(1, 6).min(frac.max(1));
+                let mut num = String::new();
+                for d in 0..(*int).max(1) {
+                    num.push(if d == 0 && *int > 1 { '1' } else { '0' });
+                }
+                if frac > 0 {
+                    num.push('.');
+                    for _ in 0..frac - sig.min(frac) {
+                        num.push('0');
+                    }
+                    num.push_str(&"125731"[..sig.min(frac)]);
+                }
+                ls[i] = format!("{}{}{}", &text[..a], num, &text[e..]).into_bytes();
+                break;
+            }
+            ls.concat()
+        }
         Mutation::Filler(at, kib, kind) => {
             let unit: &[u8] = match kind % 6 {
                 0 => b"A",
@@ -272,6 +326,7 @@ pub fn mutation_strategy() -> BoxedStrategy<Mutation> {
         2 => (any::<usize>(), any::<bool>()).prop_map(|(i, l)| Mutation::InvalidUtf8(i, l)),
         1 => proptest::collection::vec(any::<u8>(), 0..200).prop_map(Mutation::Arbitrary),
         1 => Just(Mutation::Empty),
+        2 => (any::<usize>(), 0usize..8, 1u8..=3, prop_oneof![2 => 0u8..=12, 3 => 13u8..=45, 1 => 46u8..=120], 1u8..=6).prop_map(|(line, which, int, frac, sig)| Mutation::Decimal { line, which, int, frac, sig }),
         1 => (any::<usize>(), prop_oneof![3 => 1u16..=70, 2 => 1020u16..=1100, 1 => 2040u16..=2100], 0u8..6).prop_map(|(at, kib, kind)| Mutation::Filler(at, kib, kind)),
     ]
     .boxed()
@@ -299,7 +354,7 @@ impl Sub for Structured {
         "structured-mutations"
     }
     fn rule(&self) -> &'static str {
-        "a valid generated file (C14's writers, 1..6 records) or one of the repository's small test files, with 1..3 mutations (prefix, byte substitution / deletion / insertion, line duplication / removal / swap, one or two lines repeated 2..60 or 1000..30000 times, matrix rows renumbered from values around 2^31 / 2^32 / 2^64, ragged or longer row, header without matrix, an inserted line (any two-letter field code, or a header / terminator / matrix-like line of one of the formats in an odd place), missing final newline, invalid UTF-8, arbitrary bytes, empty, 1..70 KiB / 1..1.07 MiB / 2..2.05 MiB of separator-free filler inserted somewhere), read by the reader of its own format (or, 1 in 5, another format's) under 2 generated chunkings; Reader::new and every next() must return - also the three further next() calls made after the first Err - (a panic fails; so does a call that burns 10 CPU seconds without returning) and a consumer stopping at the first Err / None must stop within len+2 calls; sweep = EVERY prefix of the repository's 8 small files and of a generated file per format, under chunk size 1 and a cursor; non-trivial = non-empty input on which the reader does not simply succeed as on the unmutated file"
+        "a valid generated file (C14's writers, 1..6 records) or one of the repository's small test files, with 1..3 mutations (prefix, byte substitution / deletion / insertion, line duplication / removal / swap, one or two lines repeated 2..60 or 1000..30000 times, matrix rows renumbered from values around 2^31 / 2^32 / 2^64, ragged or longer row, header without matrix, an inserted line (any two-letter field code, or a header / terminator / matrix-like line of one of the formats in an odd place), missing final newline, invalid UTF-8, a number replaced by a decimal of 0..120 fractional digits, arbitrary bytes, empty, 1..70 KiB / 1..1.07 MiB / 2..2.05 MiB of separator-free filler inserted somewhere), read by the reader of its own format (or, 1 in 5, another format's) under 2 generated chunkings; Reader::new and every next() must return - also the three further next() calls made after the first Err - (a panic fails; so does a call that burns 10 CPU seconds without returning) and a consumer stopping at the first Err / None must stop within len+2 calls; sweep = EVERY prefix of the repository's 8 small files and of a generated file per format, under chunk size 1 and a cursor; non-trivial = non-empty input on which the reader does not simply succeed as on the unmutated file"
     }
     fn cases(&self, tier: Tier) -> u64 {
         tier.pick(100_000, 3_000_000)
@@ -390,6 +445,13 @@ impl Sub for Structured {
                 Mutation::NoFinalNewline => "mut:no-final-newline",
                 Mutation::InvalidUtf8(..) => "mut:invalid-utf8",
                 Mutation::Arbitrary(_) => "mut:arbitrary",
+                Mutation::Decimal { frac, .. } => {
+                    if *frac >= 13 {
+                        "mut:decimal-with-13..120-fractional-digits"
+                    } else {
+                        "mut:decimal"
+                    }
+                }
                 Mutation::Filler(_, kib, _) => {
                     if *kib >= 1024 {
                         "mut:filler>=1MiB"
